@@ -8,6 +8,7 @@ from dask.array.linalg import svd_compressed as dask_svd
 from scipy.sparse.linalg import svds as complex_svd  # type: ignore
 from sklearn.utils.extmath import randomized_svd
 
+from .._verif import emit as _verif_emit
 from ..utils.sanity_checks import sanity_check_n_modes
 from ..utils.xarray_utils import get_deterministic_sign_multiplier
 
@@ -130,6 +131,15 @@ class Decomposer:
                     "Valid options are 'auto', 'full', and 'randomized'."
                 )
 
+        _verif_emit(
+            "svd_branch",
+            where="Decomposer",
+            branch="exact"
+            if use_exact
+            else ("dask" if use_dask else ("svds" if use_complex else "randomized")),
+            n_modes_precompute=self.n_modes_precompute,
+            rank=rank,
+        )
         # Use exact SVD for small data sets
         if use_exact:
             U, s, VT = self._svd(X, dims, np.linalg.svd, self.solver_kwargs)
